@@ -216,7 +216,7 @@ class Engine:
                 self.violations.append({"assert": v.assert_id, "detail": str(v.detail), "inputs": vals,
                                         "note": self.path_note})
             except Infeasible:
-                pass
+                cut = True  # dropped: not a path of the harness
             except Cut:
                 cut = True
                 self.frontier.append([(e[1], e[3]) for e in self.stack])
